@@ -55,6 +55,12 @@ def _annotate(tree, module):
             else:
                 child._func = node._func
                 child._class = node._class
+            if isinstance(node, ast.ClassDef) and isinstance(child, (ast.FunctionDef, ast.AsyncFunctionDef)) and child.name.startswith("__") and not child.name.endswith("__"):
+                child.name = "_" + node.name.lstrip("_") + child.name   # (a private method is stored under its mangled name)
+            if isinstance(child, ast.Attribute) and child._class is not None and child.attr.startswith("__") and not child.attr.endswith("__"):
+                # Python's name mangling, done here once: inside a class body `x.__a` *is* `x._Class__a`, which is also how
+                # getattr(x, "_Class__a") / vars(x) outside the class spell it
+                child.attr = "_" + child._class.name.lstrip("_") + child.attr
             stack.append(child)
 
 
